@@ -376,6 +376,18 @@ func runUnit(u unit, scratch, tier, mode string, seedBase int64, wall time.Durat
 				if rerr == nil {
 					agg.merge(&w)
 				}
+				if (err != nil || rerr != nil || !w.Done) && strings.Contains(outb, "panic:") && strings.Contains(outb, "github.com/gotid/god/") {
+					if v := crashViolation(u, scratch, rdir, out, outb, tier); v != nil {
+						if o, ok := agg.viols[v.Class]; ok {
+							o.Count++
+						} else {
+							agg.viols[v.Class] = v
+						}
+						os.Remove(out + ".seed")
+						mu.Unlock()
+						continue
+					}
+				}
 				if err != nil || rerr != nil || !w.Done {
 					tail := outb
 					if len(tail) > 3000 {
@@ -398,6 +410,37 @@ func runUnit(u unit, scratch, tier, mode string, seedBase int64, wall time.Durat
 	}
 	wg.Wait()
 	return agg
+}
+
+// crashViolation: a worker died with a Go panic inside the library (not a harness task: those are recovered).
+// The seed that was running is re-executed alone in a fresh process; if it kills that process again the crash
+// is a reproducible violation ("process-crash") whose replay file names the seed.
+func crashViolation(u unit, scratch, rdir, out, outb, tier string) *viol {
+	b, err := os.ReadFile(out + ".seed")
+	if err != nil {
+		return nil
+	}
+	seed, err := strconv.ParseInt(strings.TrimSpace(string(b)), 10, 64)
+	if err != nil {
+		return nil
+	}
+	first := ""
+	for _, ln := range strings.Split(outb, "\n") {
+		if strings.HasPrefix(ln, "panic:") || strings.HasPrefix(ln, "fatal error:") {
+			first = ln
+			break
+		}
+	}
+	rp := map[string]any{"property": currentProp, "harness": filepath.Base(u.pkg), "seed": seed, "tier": tier, "class": "process-crash",
+		"msg": "a goroutine of the library panicked and took the process down: " + first, "hash": "", "ops": []int{}, "sched": []int{}, "fault": []int{}, "log": []string{first}}
+	path := filepath.Join(rdir, fmt.Sprintf("crash-%s-%d.json", strings.ReplaceAll(u.pkg, "/", "_"), seed))
+	jb, _ := json.MarshalIndent(rp, "", " ")
+	os.WriteFile(path, jb, 0o644)
+	ok, _ := confirm(u, scratch, path, false)
+	if !ok {
+		return nil
+	}
+	return &viol{Seed: seed, Class: "process-crash", Msg: rp["msg"].(string), Replay: path, Count: 1}
 }
 
 func runLimited(cmd *exec.Cmd, limit time.Duration) (string, error) {
@@ -496,10 +539,16 @@ func confirm(u unit, scratch, path string, verbose bool) (bool, string) {
 	cmd.Dir = filepath.Join(scratch, u.pkg)
 	cmd.Env = env
 	out, _ := runLimited(cmd, 10*time.Minute)
+	if strings.Contains(out, "REPLAY-CRASH-SEED") && !strings.Contains(out, "REPLAY-RESULT") && (strings.Contains(out, "panic:") || strings.Contains(out, "fatal error:")) {
+		return true, out // the seed killed the fresh process again
+	}
 	return strings.Contains(out, "REPLAY-REPRODUCED"), out
 }
 
+var currentProp string
+
 func check(id, tier string, seed int64) int {
+	currentProp = id
 	t0 := time.Now()
 	cfg := cfgOf(id)
 	scratch, units := prepare(id, !cfg.noInstr)
